@@ -374,6 +374,19 @@ def rule_r5b_body(body, counts):
     body, n0 = re.subn(r'\b(\w+)\.map\(\|\((\w+), _\)\| \2\)\.unwrap_or\(("[^"]*")\)', r'(match \1 { Some((\2, _)) => \2, None => \3 })', body)
     if n0:
         counts['R5b'] = counts.get('R5b', 0) + n0
+    # `O.as_ref().map(|x| E)` (single line) -> `(match O.as_ref() { Some(x) => Some(E), None => None })`
+    while True:
+        m0 = re.search(r'\b([A-Za-z_][\w\.]*)\.as_ref\(\)\.map\(\|(\w+)\| ', body)
+        if not m0:
+            break
+        op = body.index('(', m0.start() + len(m0.group(1)) + len('.as_ref().map') - 1)
+        op = body.index('.map(', m0.start()) + 4
+        cl = _match_brace(body, op)
+        expr = body[m0.end():cl]
+        if '\n' in expr:
+            raise ExtractError('R5b: multi-line Option::map closure')
+        body = body[:m0.start()] + '(match %s.as_ref() { Some(%s) => Some(%s), None => None })' % (m0.group(1), m0.group(2), expr.strip()) + body[cl + 1:]
+        counts['R5b'] = counts.get('R5b', 0) + 1
     pat_any = re.compile(r'([A-Za-z_][\w]*)\s*\.iter\(\)\s*\.any\(\|(\w+)\|\s*match_wildcard\(\2,\s*([^()]+)\)\)')
     body, n = pat_any.subn(lambda m: 'verif_any_match(%s, %s)' % (m.group(1), m.group(3).strip()), body)
     if n:
